@@ -24,10 +24,11 @@ Lemma get_set_counter s b h : get (set_counter s b) h = get s h. Proof. reflexiv
 Lemma get_set_toc s b h : get (set_toc s b) h = get s h. Proof. reflexivity. Qed.
 Lemma get_set_link s b h : get (set_link s b) h = get s h. Proof. reflexivity. Qed.
 Lemma get_set_v2 s b h : get (set_v2 s b) h = get s h. Proof. reflexivity. Qed.
+Lemma get_set_rp s b h : get (set_rp s b) h = get s h. Proof. reflexivity. Qed.
 
 (* what a step may do to one configuration object *)
 Ltac gp :=
-  repeat (rewrite ?get_put, ?get_set_blocks, ?get_set_counter, ?get_set_toc, ?get_set_link, ?get_set_v2 in *).
+  repeat (rewrite ?get_put, ?get_set_blocks, ?get_set_counter, ?get_set_toc, ?get_set_link, ?get_set_v2, ?get_set_rp in *).
 
 Ltac case_if :=
   match goal with
@@ -120,7 +121,7 @@ Definition on_settings_old (s : st) (cmd id status : Z) : step_result :=
 
 
 Definition reset_applies (s : st) (cmd : Z) : bool :=
-  (cmd =? g_cmd_reset) && match s_toc s with None => true | Some _ => false end.
+  (cmd =? g_cmd_reset) && match (if s_rp s then s_toc s else Some []) with None => true | Some _ => false end.
 
 Definition toc_info_wire (s : st) : obs :=
   OWire 5 g_chan_toc [if s_v2 s then g_toc_info_v2 else g_toc_info] [if s_v2 s then g_toc_info_v2 else g_toc_info].
@@ -211,7 +212,7 @@ Lemma on_settings_split s cmd id status :
   on_settings s cmd id status =
     if reset_applies s cmd then
       let '(s1, o1) := forget_blocks s (s_blocks s) in
-      (set_toc (set_blocks s1 []) (Some []), o1 ++ [toc_info_wire s], None)
+      (set_rp (set_toc (set_blocks s1 []) (Some [])) false, o1 ++ [toc_info_wire s], None)
     else on_settings_old s cmd id status.
 Proof.
   unfold reset_applies, on_settings, on_settings_old, toc_info_wire.
@@ -220,7 +221,7 @@ Proof.
     change (5 =? g_cmd_create) with false. change (5 =? g_cmd_create_v2) with false.
     change (5 =? g_cmd_start) with false. change (5 =? g_cmd_stop) with false.
     change (5 =? g_cmd_delete) with false. change (5 =? g_cmd_reset) with true. cbn [orb andb].
-    destruct (s_toc s); reflexivity.
+    destruct (if s_rp s then s_toc s else Some []); reflexivity.
   - cbn [andb]. reflexivity.
 Qed.
 
@@ -313,7 +314,7 @@ Proof.
   intros Hv h. rewrite on_settings_split. destruct (reset_applies s cmd) eqn:R; cbn [andb].
   - pose proof (forget_blocks_flags (s_blocks s) s h Hv) as F.
     destruct (forget_blocks s (s_blocks s)) as [s1 o1]. cbn [fst snd] in *.
-    rewrite get_set_toc, get_set_blocks, F. destruct (memb h (s_blocks s)); [reflexivity|].
+    rewrite get_set_rp, get_set_toc, get_set_blocks, F. destruct (memb h (s_blocks s)); [reflexivity|].
     (* cmd = reset: the acknowledgement table leaves the flags alone *)
     unfold reset_applies in R. apply andb_true_iff in R as [R _].
     assert (cmd = 5) by (unfold g_cmd_reset in R; lia). subst cmd.
@@ -448,7 +449,7 @@ Proof.
 Qed.
 
 Ltac put_cases :=
-  repeat (rewrite ?get_set_blocks, ?get_set_counter, ?get_set_toc, ?get_set_link, ?get_set_v2;
+  repeat (rewrite ?get_set_blocks, ?get_set_counter, ?get_set_toc, ?get_set_link, ?get_set_v2, ?get_set_rp;
   match goal with
   | |- context [get (put ?s ?h0 ?c) ?h] => rewrite (get_put s h0 c h)
   | |- context [if (Nat.eqb ?h ?h0 && valid_h ?s ?h0)%bool then _ else _] =>
